@@ -2,6 +2,7 @@
 import gen
 import lib
 from props import c06
+from props import c12_tree
 
 LEVEL = "proof"
 
@@ -151,10 +152,16 @@ def run(chk):
         lines = [c["case"]["line"]] if "case" in c else []
         lines += [m["case"]["line"] for m in c.get("more", []) if "line" in m.get("case", {})]
         lines += [x.get("first_case", {}).get("line") for x in c.get("no_longer_checks", [])]
+        tree_replay = []
         for l in lines:
             if l:
                 w = l.split()
-                cases.append((w[0], w[2], w[3]))
+                if len(w) == 2:
+                    tree_replay.append(l)          # a `cvh cldb-tree` line (hierarchical view)
+                else:
+                    cases.append((w[0], w[2], w[3]))
+        if tree_replay:
+            c12_tree.run(chk, 0, replay_lines=tree_replay)
     else:
         for m, p, e in HAND:
             cases.append((m, p, e))
@@ -215,7 +222,11 @@ def run(chk):
                        "apply, list building) over all operators of Ops.chiaOps, quoted constants and environments in "
                        "converter spelling or re-spelled (Integer / Atom / QuotedString), both integer modes, + every tree with "
                        "<= 5 nodes (7 thorough) over the C06 alphabet, + hand-written witnesses; each case as source-supplied (s) "
-                       "and hex-supplied (x). distinct = distinct lines; non-trivial = at least one operator row")
+                       "and hex-supplied (x). distinct = distinct lines; non-trivial = at least one operator row.  "
+                       "Hierarchical view (props/c12_tree.py, cvh cldb-tree): chains of 1..3 non-inline functions with one failure "
+                       "site at depth 0..3 (x, f of an atom, + of a pair, / by 0), cl21 / cl22 / cl23, arguments that hit and miss "
+                       "the site: end of `cldb -t` (cmds::cldb_hierarchy) = end of the plain stream = consensus (Final value or "
+                       "Failure/Throw entry)")
     mo, io = lib.correspond(chk, "cldb", lines, label="cldb", skip=skip_line, norm_model=norm, norm_impl=norm,
                             sig=lambda l, a, b: "corr:cldb", timeout=1200)
 
@@ -307,11 +318,16 @@ def run(chk):
             if a != b:
                 chk.fail("oracle", "cldb:hex-vs-source", {"sub": "cldb", "line": ls},
                          {"source": str(a)[:300], "hex": str(b)[:300]})
+    # (5) the hierarchical (-t) view: cmds::cldb_hierarchy vs the plain stream vs consensus on programs that fail or
+    # return inside nested function calls
+    if not chk.replay_cases:
+        c12_tree.run(chk, 240 if quick else 6000)
     for m, p, e in HAND[:3]:
         chk.sample({"line": f"{m} s {p} {e}", "prog": c06.show_rich(p), "env": c06.show_rich(e)}, limit=6)
     chk.cov["modelled_not_verified"] = [
         "row keys other than Operator/Arguments/Value/Row/Final/Failure/Throw/Print (locations, Function, Env*, "
-        "Argument-Refs) and the hierarchical (-t) grouping of cldb_hierarchy are not modelled",
+        "Argument-Refs) and the hierarchical (-t) grouping of cldb_hierarchy are not modelled (the -t view is judged by "
+        "the oracle only: its Final / Failure entry against consensus, props/c12_tree.py)",
         "the printer (SExp Display) used to compare row texts lives in the model driver (Drv/Cldb.lean), outside the theorems; "
         "the oracle re-reads row texts with the compiler's own reader (rows that do not re-read are counted, not judged)",
         "compiled programs come from a small family of source templates (no program generator yet); symbol tables only "
